@@ -225,8 +225,7 @@ def all_leaf(kind):
     for n in E.__all__:
         c = getattr(E, n)
         r = getattr(c, 'refdom', None)
-        if n.startswith('Element') and r is not None and r.__name__ == rd and n not in ('ElementLinePp', 'ElementQuadP', 'ElementHexC1',
-                                                                                        'ElementTri15ParamPlate', 'ElementQuadBFS', 'ElementQuad2G'):
+        if n.startswith('Element') and r is not None and r.__name__ == rd and n not in ('ElementLinePp', 'ElementQuadP', 'ElementHexC1'):
             out.append(n)
     return out
 
@@ -245,14 +244,14 @@ def build_configs(tier, seed):
                     continue
                 free = None
                 mesh_ = mesh
-                if any(x in spec for x in ('Morley', 'Argyris', 'TriHermite', 'TriP1G', 'TriP2G')):
+                if any(x in spec for x in ('Morley', 'Argyris', 'TriHermite', 'TriP1G', 'TriP2G', '15Param')):
                     # exact Vandermonde inverse needs rational unit normals: Heronian cells, numeric geometry
                     free = 'none'
                     if mesh != meshes[0]:
                         continue
                     mesh_ = 'tri2heron'
-                if 'LineHermite' in spec:
-                    free = 'none'
+                if 'LineHermite' in spec or spec in ('ElementQuadBFS', 'ElementQuad2G'):
+                    free = 'none'        # globally defined: numeric geometry (exact Vandermonde inverse)
                 if kind == 'wedge':
                     free = 'none'
                 if kind == 'hex':
